@@ -154,12 +154,12 @@ theorem alone_toxic (v : UpdVariant) (e : Env) (c : CState) (r : Request) (n : S
   cases hf : c.s.find n with
   | none =>
     have h0 : advance v e c r .start = (c, .done (errResp .proxyNotFound)) := by
-      simp [advance, hk, hf]
+      simp [advance, hk, hf, hl]
     rw [step_toxic_absent v e c.s r n hk hf]
     simp [runAlone, h0, Phase.resp?, hz, hl]
   | some p =>
     have h0 : advance v e c r .start = (c, .found p (c.epoch n)) := by
-      simp [advance, hk, hf]
+      simp [advance, hk, hf, hl]
     have h1 : advance v e c r (.found p (c.epoch n)) = ({ c with s := (step v e c.s r).1 }, .done (step v e c.s r).2) := by
       simp [advance, hk, live_same, hf, hz, env_eta]
     simp [runAlone, h0, h1, Phase.resp?, hz, hl]
@@ -195,12 +195,12 @@ theorem alone_update (v : UpdVariant) (e : Env) (c : CState) (r : Request) (n : 
   cases hf : c.s.find n with
   | none =>
     have h0 : advance v e c r .start = (c, .done (errResp .proxyNotFound)) := by
-      simp [advance, hk, hf]
+      simp [advance, hk, hf, hl]
     simp [runAlone, h0, Phase.resp?, hz, hl, hUpdate, withProxy, hf]
   | some p =>
     have hpn : p.name = n := find_name hf
     have h0 : advance v e c r .start = (c, .found p (c.epoch n)) := by
-      simp [advance, hk, hf]
+      simp [advance, hk, hf, hl]
     cases hd : decodeProxy ⟨p.name, p.listen, p.upstream, p.enabled⟩ r.body with
     | none =>
       have h1 : advance v e c r (.found p (c.epoch n)) = (c, .done (errResp .badRequestBody)) := by
@@ -278,6 +278,140 @@ theorem alone_update (v : UpdVariant) (e : Env) (c : CState) (r : Request) (n : 
           cases okk <;>
             simp [runAlone, h0, h1, h2, hu, Phase.resp?, hz, hl, hUpdate, withProxy, hf, hd]
 
+theorem kindOf_replace_inv (r : Request) (h : kindOf r = .replace) :
+    r.browser = false ∧ r.path = ["populate"] ∧ r.method = .post := by
+  unfold kindOf at h
+  split at h
+  · simp at h
+  · rename_i ms hms
+    split at h
+    · simp at h
+    · rename_i hc
+      simp only [Bool.or_eq_true, Bool.not_eq_true', not_or, Bool.not_eq_false] at hc
+      refine ⟨by simpa using hc.2, ?_⟩
+      split at h <;> simp at h
+      rename_i heq
+      rw [heq] at hms
+      simp only [routeMethods, Option.some.injEq] at hms
+      subst hms
+      refine ⟨heq, ?_⟩
+      have := hc.1
+      cases hm : r.method <;> rw [hm] at this <;> first | rfl | (exact absurd this (by decide))
+
+theorem step_replace (v : UpdVariant) (e : Env) (s : State) (r : Request)
+    (hk : kindOf r = .replace) : step v e s r = populate e s r.body := by
+  obtain ⟨hb, hp, hm⟩ := kindOf_replace_inv r hk
+  simp [step, hp, hm, hb, routeMethods, dispatch, List.contains, List.elem]
+
+theorem find_replace_self (s : State) (n : String) (ex q : ProxyRec) (hq : q.name = n)
+    (h : s.find n = some ex) : (s.replace q).find n = some q := by
+  unfold State.find State.replace at *
+  subst hq
+  induction s with
+  | nil => simp at h
+  | cons a s ih =>
+    rw [List.map_cons, List.find?_cons]
+    rw [List.find?_cons] at h
+    by_cases ha : (a.name == q.name) = true
+    · simp only [ha, if_true, beq_self_eq_true]
+    · have hf : (a.name == q.name) = false := by simpa using ha
+      rw [hf] at h
+      simp only [hf, Bool.false_eq_true, if_false]
+      exact ih h
+
+theorem alone_replace (v : UpdVariant) (e : Env) (c : CState) (r : Request)
+    (hz : c.zombies = []) (hl : c.locked = []) (hk : kindOf r = .replace) :
+    (runAlone v e c r).1.s = (step v e c.s r).1 ∧ (runAlone v e c r).2.resp? = some (step v e c.s r).2 ∧
+    (runAlone v e c r).1.zombies = [] ∧ (runAlone v e c r).1.locked = [] := by
+  cases hsf : stopFirst e c.s r with
+  | none =>
+    have h0 : advance v e c r .start =
+        ({ c with s := (step v e c.s r).1, epochs := reEpoch c.epochs c.s (step v e c.s r).1,
+                  dead := c.dead ++ retired c.epochs c.s (step v e c.s r).1 }, .done (step v e c.s r).2) := by
+      simp only [advance, hk, hl, hz, env_eta, hsf]
+      simp
+    simp [runAlone, h0, Phase.resp?, hz, hl]
+  | some xs =>
+    obtain ⟨x, s1⟩ := xs
+    -- what `stopFirst` found
+    obtain ⟨ex, rs, hdec, hne, hfind, hres, hdiff, hen, hs1⟩ :
+        ∃ ex rs, decodePopulate r.body = some [x] ∧ (x.name == "" || x.upstream == "") = false ∧
+          c.s.find x.name = some ex ∧ e.resolve x.listen = some rs ∧
+          (e.sameListen ex.listen x.listen && ex.upstream == x.upstream) = false ∧ ex.enabled = true ∧
+          s1 = c.s.replace { ex with enabled := false } := by
+      unfold stopFirst at hsf
+      split at hsf
+      · rename_i y hdec
+        split at hsf
+        · cases hsf
+        · rename_i hne
+          split at hsf
+          · rename_i ex hfind
+            split at hsf
+            · cases hsf
+            · rename_i rs hres
+              split at hsf
+              · cases hsf
+              · rename_i hdiff
+                split at hsf
+                · rename_i hen
+                  simp only [Option.some.injEq, Prod.mk.injEq] at hsf
+                  obtain ⟨hx, hs⟩ := hsf
+                  subst hx
+                  exact ⟨ex, rs, hdec, by simpa using hne, hfind, hres, by simpa using hdiff, hen, hs.symm⟩
+                · cases hsf
+          · cases hsf
+      · cases hsf
+    let off : ProxyRec := { ex with enabled := false }
+    have hoffn : off.name = x.name := (find_name hfind : ex.name = x.name)
+    have hfo : s1.find x.name = some off := by rw [hs1]; exact find_replace_self c.s x.name ex off hoffn hfind
+    have h0 : advance v e c r .start =
+        ({ s := s1, epochs := c.epochs, zombies := [], locked := [collLock], dead := c.dead }, .replacing x) := by
+      simp only [advance, hk, hl, hz, env_eta, hsf]
+      simp
+    let np : ProxyRec := ⟨x.name, x.listen, x.upstream, false, []⟩
+    have hpop : step v e c.s r =
+        (if x.enabled.getD true then
+          (match startProxy e s1 np with
+           | some p => (s1.replace p, ⟨201, .populate [p] none, false, false⟩)
+           | none => (s1, ⟨500, .populate [] (some .internal), true, false⟩))
+         else (s1.replace np, ⟨201, .populate [np] none, false, false⟩)) := by
+      rw [step_replace v e c.s r hk]
+      unfold populate
+      simp only [hdec, List.any_cons, List.any_nil, Bool.or_false, hne, Bool.false_eq_true, if_false]
+      simp only [populateLoop, addOrReplace, hfind, hres, hdiff, Bool.false_eq_true, if_false, ← hs1]
+      cases hstart : x.enabled.getD true
+      · simp [populateLoop, np]
+      · simp only [if_true]
+        cases hsp : startProxy e s1 np with
+        | none => simp [hsp, np, hfo, off] 
+        | some p => simp [hsp, np, populateLoop]
+    cases hstart : x.enabled.getD true with
+    | false =>
+      have h1 : advance v e { s := s1, epochs := c.epochs, zombies := [], locked := [collLock], dead := c.dead } r (.replacing x) =
+          ({ c with s := s1.replace np, epochs := bump c.epochs x.name, zombies := [], locked := [],
+                    dead := c.dead ++ [((x.name, c.epoch x.name), off)] },
+           .done ⟨201, .populate [np] none, false, false⟩) := by
+        simp [advance, hz, hstart, hfo, off, np, CState.epoch]
+      rw [hpop]
+      simp [runAlone, h0, h1, Phase.resp?, hstart]
+    | true =>
+      cases hsp : startProxy e s1 np with
+      | none =>
+        have h1 : advance v e { s := s1, epochs := c.epochs, zombies := [], locked := [collLock], dead := c.dead } r (.replacing x) =
+            ({ s := s1, epochs := c.epochs, zombies := [], locked := [], dead := c.dead }, .done ⟨500, .populate [] (some .internal), true, false⟩) := by
+          simp [advance, hz, hstart, hfo, off, np, env_eta, hsp]
+        rw [hpop]
+        simp [runAlone, h0, h1, Phase.resp?, hstart, hsp, hz]
+      | some p =>
+        have h1 : advance v e { s := s1, epochs := c.epochs, zombies := [], locked := [collLock], dead := c.dead } r (.replacing x) =
+            ({ c with s := s1.replace p, epochs := bump c.epochs x.name, zombies := [], locked := [],
+                      dead := c.dead ++ [((x.name, c.epoch x.name), off)] },
+             .done ⟨201, .populate [p] none, false, false⟩) := by
+          simp [advance, hz, hstart, hfo, off, np, env_eta, hsp, CState.epoch]
+        rw [hpop]
+        simp [runAlone, h0, h1, Phase.resp?, hstart, hsp]
+
 /-- **C16 (the block model refines the sequential model).** A request whose blocks run
 without anything in between — from a state with no zombie listener and no half-way update —
 changes the registry exactly as the sequential handler `Api.step` does, gets exactly its
@@ -290,6 +424,7 @@ theorem C16_alone_is_sequential (v : UpdVariant) (e : Env) (c : CState) (r : Req
   | single => exact alone_single v e c r hz hl hk
   | update n => exact alone_update v e c r n hz hl hk
   | toxic n => exact alone_toxic v e c r n hz hl hk
+  | replace => exact alone_replace v e c r hz hl hk
 
 /-- Hence every one-at-a-time execution of any list of requests is an execution of the
 sequential model, and ends without zombies: a listener that outlives its proxy needs an
@@ -353,6 +488,34 @@ theorem C16_lost_disable_not_sequential :
       = ([("p1", "u:2", false)], [], [200, 200]) ∧
     outcome envW (runSched .fixed envW [upstreamReq, disableReq] { s := [p1on] } [.start, .start] [1, 1, 1, 0, 0, 0])
       = ([("p1", "u:2", false)], [], [200, 200]) := by
+  decide
+
+/-- Environment with two addresses. -/
+def envW2 : Env := ⟨[⟨"a:1", some "a:1", some "a:1", 1⟩, ⟨"b:2", some "b:2", some "b:2", 2⟩], [],
+  [("a:1", "a:1"), ("b:2", "b:2")]⟩
+def p2on : ProxyRec := ⟨"p2", "b:2", "u:9", true, []⟩
+def replaceReq : Request := ⟨.post, ["populate"], false,
+  .val (.arr [.obj [("name", .str "p1"), ("listen", .str "a:1"), ("upstream", .str "u:2")]])⟩
+def moveP2Req : Request := ⟨.post, ["proxies", "p2"], false, .val (.obj [("listen", .str "a:1")])⟩
+
+/-- **Witness (a replacement loses its port between stop and start).** Requests: 0 = populate
+replacing the running p1 (same address `a:1`, new upstream), 1 = re-address p2 to `a:1`.
+Schedule: p2's update looks p2 up and reads its defaults; the populate stops p1 (holding the
+collection lock, which `Proxy.Update` does not take); p2's update stops p2, stores `a:1`, starts
+on the port p1 just freed; the populate's start fails.  The populate answers 500, p2's update
+200, and p1 — the *old* p1 — is left stopped. -/
+theorem C16_replace_race_witness :
+    outcome envW2 (runSched .fixed envW2 [replaceReq, moveP2Req] { s := [p1on, p2on] } [.start, .start] [1, 1, 0, 1, 1, 1, 0])
+      = ([("p1", "u:1", false), ("p2", "u:9", true)], [1], [500, 200]) := by
+  decide
+
+/-- … whereas one at a time either the replacement succeeds and p2's move is refused (the port
+is taken: p2 ends stopped), or p2's move is refused first and the replacement succeeds. -/
+theorem C16_replace_race_not_sequential :
+    outcome envW2 (runSched .fixed envW2 [replaceReq, moveP2Req] { s := [p1on, p2on] } [.start, .start] [0, 0, 1, 1, 1, 1, 1])
+      = ([("p1", "u:2", true), ("p2", "u:9", false)], [1], [201, 500]) ∧
+    outcome envW2 (runSched .fixed envW2 [replaceReq, moveP2Req] { s := [p1on, p2on] } [.start, .start] [1, 1, 1, 1, 1, 0, 0])
+      = ([("p1", "u:2", true), ("p2", "u:9", false)], [1], [201, 500]) := by
   decide
 
 end Toxi.Conc
